@@ -46,7 +46,8 @@ def nest_docs(rng, k):
     return out
 
 
-EXTRA = ["| a | b |\n|---|:-:|\n| 1 | 2 |\n| 3 |\n", "a | b\n-- | --\n1 | 2 | 3\n", "term\n: def\n\n  more\n: d2\n", "- [ ] t\n- [x] u\n  - [ ] v\n",
+EXTRA = ["| a | b | c |\n|:--|:-:|--:|\n| x \\| y | z |\n", "a | b | c\n:--|:-:|--:\nx \\| y | z\n", "| a | b |\n|---|---|\n| x \\| y \\| z |\n| p | q | r |\n| \\| |\n",
+         "| a |\n|---|\n| `x \\| y` | z |\n", "Euler: $$e^{i\\pi}+1=0$$ and $x$\n", "# h $$y$$\n\n| $$z$$ |\n|---|\n", "*a $$b$$ c* [d $$e$$](/u)\n","| a | b |\n|---|:-:|\n| 1 | 2 |\n| 3 |\n", "a | b\n-- | --\n1 | 2 | 3\n", "term\n: def\n\n  more\n: d2\n", "- [ ] t\n- [x] u\n  - [ ] v\n",
          "[^1]: note\n\n    para2\n\nref[^1]\n", "```{note} T\n:class: c\n\nbody\n```\n", ".. figure:: a.png\n   :figwidth: 10\n\n   cap\n\n   legend\n",
          ">! spoiler\n>! more\n", "*[HTML]: Hyper\nThe HTML\n", "$$\nx\n$$\n", "Setext\n===\n", "1. a\n\n   b\n2. c\n", "9. nine\n10. ten\n", "```{toc}\n```\n# h\n",
          "> > > > > > > deep\n", "- - - - - - - deep\n", "> - > - > - > - x\n", ">! >! >! >! >! >! >! x\n", "> > > > > > -\n", "> > > > > > - item\n", "- - - - - - > q\n"]
